@@ -502,12 +502,21 @@ class WSModel:
             if n.kind == 'stmt' and isinstance(n.ast, ast.Raise):
                 qs = []
                 factory = self._self_method(func, n.ast.exc) if isinstance(n.ast.exc, ast.Call) else None
+                via_local = False
+                if factory is None and isinstance(n.ast.exc, ast.Name) and n.ast.exc.id not in func.params():
+                    # translated = self._classify(ex) ... if translated: raise translated
+                    ds = local_defs(func, n.ast.exc.id)
+                    if len(ds) == 1 and isinstance(ds[0], ast.Call):
+                        factory = self._self_method(func, ds[0])
+                        via_local = factory is not None
                 if factory is not None:
                     # raise self._make_error(...): the classes the same-class factory can hand back
                     kinds = return_kinds(p, factory)
-                    if RET_NONE in kinds:
+                    if RET_NONE in kinds and not via_local:
                         raise UnknownIdiom('%s: raises the result of %s, which can be None' % (func.qual, factory.qual))
-                    qs = sorted(kinds)
+                    qs = sorted(k for k in kinds if k != RET_NONE)     # `raise None` is not a way to leave (TypeError; guarded by a truth test today)
+                    if not qs:
+                        raise UnknownIdiom('%s: raises the result of %s, which is always None' % (func.qual, factory.qual))
                 elif n.ast.exc is not None:
                     e = n.ast.exc.func if isinstance(n.ast.exc, ast.Call) else n.ast.exc
                     q = p.resolve_expr(func.module, e, func)
@@ -553,6 +562,16 @@ class WSModel:
         if self._states is not None:
             return self._states
         ops = self.public_ops()
+        # the members are classified by what the class does with them: nobody else may record a connection state
+        for g in self.p.all_functions():
+            own = g.cls or (g.parent.cls if g.parent is not None else None)
+            if own is not None and (own.qual == WS or self.p.is_subclass(own.qual, WS) is True):
+                continue
+            for n in walk_self(g.node):
+                if isinstance(n, (ast.Assign, ast.AnnAssign)) and n.value is not None:
+                    for t in (n.targets if isinstance(n, ast.Assign) else [n.target]):
+                        if isinstance(t, ast.Attribute) and t.attr == self.state_attr and self._member(g, n.value) is not None:
+                            raise UnknownIdiom('%s records a WebSocket state from outside the class: %s' % (g.qual, short(n)))
         acc = self.cls.methods.get('accept')
         if acc is None:
             raise AnchorError('%s.accept not found' % WS)
